@@ -15,7 +15,7 @@ FUNCTIONS_ENCODED = ["ThreadingApplication._wait_for_recv_msg / _wait_for_resp_m
                      "PeerConnection.work_read_queue / work_write_queue", "Node.receive_cer", "Node._receive_app_request"]
 ASSUMPTIONS = ["a thread is its body function: a body that ends by an exception IS the thread dying", "handler threads run when the harness schedules them (between the steps of the scenario)",
                "Queue.put(timeout=5) on the slot queue -> non-blocking (Full = the 5 s timeout)"]
-BOUNDS = {"quick": "threading application: 2 requests with handler outcomes in {answer, None, raises} each, thread limit 0..2, connection loss before/after the handler for each request; I/O faults: {orderly close, reset, read error, write error} at {inside the CER header, mid-body, after the CER, while the CEA is being written, mid-request}; each followed by a reconnect-and-serve probe of limit+2 requests",
+BOUNDS = {"quick": "threading application: 2 requests with handler outcomes in {answer, None, raises, thread cannot be started} each, thread limit 0..2, connection loss before/after the handler for each request; I/O faults: {orderly close, reset, read error, write error} at {inside the CER header, mid-body, after the CER, while the CEA is being written, mid-request}; each followed by a reconnect-and-serve probe of limit+2 requests",
           "thorough": "3 requests"}
 OUTSIDE = ["faults at every single byte offset (offsets grouped in classes)", "3 consecutive faults", "'slow' handlers", "OS-level preemption inside worker loops"]
 PEER = B.PEER_HOSTS[0]
@@ -95,17 +95,17 @@ def _probe(b, app, limit, tag):
 def threading_app(limit: int, outs: List[int], lost: List[int]) -> bool:
     """
     pre: limit == P["limit"] and len(outs) == P["nreq"] and len(lost) == P["nreq"]
-    pre: all(0 <= o <= 2 for o in outs) and all(0 <= x <= 2 for x in lost)
+    pre: all(0 <= o <= 3 for o in outs) and all(0 <= x <= 2 for x in lost)
     post: _
     """
     hx.begin()
     limit_v = P["limit"]
-    outcomes = [hx.concretize_range(o, 0, 3) for o in outs]
+    outcomes = [hx.concretize_range(o, 0, 4) for o in outs]       # 0 answer, 1 None, 2 raises, 3 the handler thread cannot be started
     losts = [hx.concretize_range(x, 0, 3) for x in lost]     # 0 = no fault, 1 = connection lost while the handler runs, 2 = lost before the thread starts
     inputs = (limit, outs, lost)
     why = ""
     try:
-        b, app = _mk(limit_v, outcomes)
+        b, app = _mk(limit_v, [o for o in outcomes if o != 3])
         n, p = b.node, b.peers[0]
         c, s = b.make_ready(p)
         for i in range(len(outcomes)):
@@ -115,7 +115,11 @@ def threading_app(limit: int, outs: List[int], lost: List[int]) -> bool:
             if losts[i] == 2:
                 n.close_connection_socket(c, B.DISCONNECT_REASON_GONE_AWAY)
             if not app._recv_msg_queue.empty():
-                WORLD.pump_queue(app._recv_msg_queue, app._wait_for_recv_msg)
+                WORLD.thread_start_fails = outcomes[i] == 3          # Thread.start raises RuntimeError (handled by the library)
+                try:
+                    WORLD.pump_queue(app._recv_msg_queue, app._wait_for_recv_msg)
+                finally:
+                    WORLD.thread_start_fails = False
             if losts[i] == 1:
                 n.close_connection_socket(c, B.DISCONNECT_REASON_GONE_AWAY)
             _pump_app(app)
@@ -260,7 +264,7 @@ def specs(tier, seed, carve):
     for nreq in ((1, 2) if q else (1, 2, 3)):
       for limit in (0, 1, 2):
         out.append(dict(id="threading_app/%d/limit%d" % (nreq, limit), fn="threading_app", params={"nreq": nreq, "limit": limit}, timeout=900 if nreq < 3 else 6000,
-                        bound="thread limit " + str(limit) + " x %d requests with handler outcome in {answer, None, raises} and connection loss in {none, while the handler runs, before the thread starts} each, then a probe of limit+2 requests" % nreq))
+                        bound="thread limit " + str(limit) + " x %d requests with handler outcome in {answer, None, raises, thread cannot be started} and connection loss in {none, while the handler runs, before the thread starts} each, then a probe of limit+2 requests" % nreq))
     for fi, fn_ in enumerate(FAULTS):
         out.append(dict(id="io_fault/" + fn_, fn="io_fault", params={"fault": fi}, timeout=900,
                         bound="fault %s x cut point %s x optional second fault of any kind, then a reconnect-and-serve probe through the real I/O loop" % (fn_, POINTS)))
